@@ -26,7 +26,8 @@ def gen_dataset(rng, nvars=None, numeric=False, minn=1):
         if k == 0 and not sub:
             sub = [dims[0]]
         vars_[key] = {"dims": sub, "vkind": rng.choice(["f", "f", "i"])}
-    return {"axes": axes, "dims": dims, "vars": vars_, "attrs": {"title": "T", "n": 1}}
+    used = [d for d in dims if any(d in v["dims"] for v in vars_.values())]
+    return {"axes": {d: axes[d] for d in used}, "dims": used, "vars": vars_, "attrs": {"title": "T", "n": 1}}
 
 
 def build_dataset(dd, base=0):
@@ -60,16 +61,25 @@ def obs_ds(ds, toks=None):
     return out
 
 
+def rv(v):
+    if v[0] == "n":
+        return ["r", float("%.10e" % (v[1] / v[2]))]
+    return v
+
+
 def same_obs(x, y, keys=("dims", "shape", "values")):
     for k in keys:
-        if x[k] != y[k]:
+        if k == "values":
+            if [rv(v) for v in x[k]] != [rv(v) for v in y[k]]:
+                return False
+        elif x[k] != y[k]:
             return False
     return [(a["name"], [lab_key(l) for l in a["labels"]]) for a in x["axes"]] == [(a["name"], [lab_key(l) for l in a["labels"]]) for a in y["axes"]]
 
 
 class C14(Prop):
     id = "C14"
-    theorems = []
+    theorems = ["labelToInt_intCast", "ixToRaw_rawToIx", "dsTake_perdim_commutes", "fullslice_both_modes"]
     rule = ("Datasets of 1-4 variables whose dimension sets overlap partially (some variables lack the operated dimension, "
             "some are 0-d), int/float/str labels in any order; take / .ix / .loc / .sel / .isel with scalar, list, mask and slice "
             "indices, reductions (mean sum var std median), take_axis, sort_axis, reindex_axis (with missing labels), "
@@ -293,7 +303,7 @@ class C14(Prop):
                     got = res["vars"][k]
                     if e["ok"]["scalar"]:
                         # a 0-d result is stored as a 0-d variable
-                        if got["dims"] != [] or got["values"] != e["ok"]["values"]:
+                        if got["dims"] != [] or [rv(v) for v in got["values"]] != [rv(v) for v in e["ok"]["values"]]:
                             prop_bad.append("var:" + k)
                     elif not same_obs(got, e["ok"]):
                         prop_bad.append("var:" + k)
